@@ -16,21 +16,31 @@ TECHNIQUE = (
     "of gallia's UDSServer whose session transitions are a generated directed graph (gallia's own default response chain answers "
     "absent edges with 0x12/0x7E); the transport logs every request with the ECU session before/after.  Oracle: level-wise "
     "reachability on the generated graph (skipped sessions and refused transitions removed), replay of every reported stack on a "
-    "fresh model, request budget / empty virtual schedule for termination, skip list against the ECU-side request log"
+    "fresh model, request budget / empty virtual schedule for termination, skip list against the ECU-side request log; the "
+    "'identified but could not be activated' list of the result log against the ECU-side refusals (NRC other than 0x12/0x7E, never "
+    "entered).  A share of the scans is DB-backed on a real event loop: the scanner's own _db_insert_run_meta()/_db_finish_run_meta() "
+    "open a real DBHandler on a sqlite file in the scratch directory, one or two scans of the same target go into the same file, and "
+    "the session_transition rows of each scan are read back with the stdlib sqlite3 module and held against the same reference"
 )
 LEVEL_TEXT = (
     "Exploration: seeded random session graphs (3..14 session ids out of 1..0x7F plus planted chains of length depth+2, cycles, "
     "unreachable components, sessions behind non-default sessions, transitions refused with another NRC), ISO-conformant (every "
     "session returns to the default session) and non-conformant, x depth 1..5 x skip lists in range grammar x thorough x reset x "
     "with-hooks x direct main()/full run().  Held = on every generated scan the result equals the reference reachability set, every "
-    "reported stack is a real path, no skipped session was requested and the scan ended within its request budget."
+    "reported stack is a real path, no skipped session was requested and the scan ended within its request budget.  DB-backed "
+    "histories: one scan, or a scan followed by a second scan of the same target into the same database with a smaller depth, a skip "
+    "list cutting stored paths, a changed graph or thorough flipped; the second scan is judged by ITS depth / skip list / graph, its "
+    "session_transition rows must be exactly the reachable sessions (plus the sessions sessions.py documents as identified), each "
+    "with steps that are a real walk no longer than depth, and the ECU-side log must not show a refused change retried through "
+    "stored steps."
 )
 LEVEL_NOTE = (
     "Trusted: GraphECU and InProcessTransport in vf/ecu_models.py (about 100 lines on top of gallia's UDSServer base), the level-wise "
     "reachability in this file, vf/vtime.py.  Explicit abort (SystemExit) is accepted only where DESIGN 3a allows it."
 )
 RULE = (
-    "cases = (graph edges, refused transitions, depth, skip list, thorough, reset level, ECU offers reset, with_hooks, sleep, run mode); "
+    "cases = (graph edges, refused transitions, depth, skip list, thorough, reset level, ECU offers reset, with_hooks, sleep, run mode, "
+    "DB-backed or not; each scan of a two-scan history is one case); "
     "graphs are seeded random digraphs with planted features; non-trivial = some session lies at distance >= 2 from the default "
     "session or a planted feature (cycle off the default session, over-long chain, unreachable component, skip that cuts a path, "
     "refused transition) is present; distinct = distinct case tuples; distinct_traces = distinct ECU-side request/reply logs"
@@ -43,6 +53,12 @@ ASSUMPTIONS = [
     "has no transition back to the default session and either no effective reset is in use or the default session cannot be re-entered from itself; "
     "everywhere else the exact set is required",
     "the ECU model always answers DiagnosticSessionControl (no silent refusals)",
+    "sessions.py documents that a session whose change was refused with an NRC other than 0x12/0x7E and that was never entered is logged as "
+    "'identified but could not be activated' AND stored in session_transition with the stack it was refused from (the table has no column "
+    "telling such rows from reachable ones); the oracle accepts exactly those rows/list entries, derived from the ECU-side log, and nothing "
+    "else beside the reachable set",
+    "DB-backed scans run in real time, hence without --reset and --sleep and on graphs needing at most a few thousand requests; a wall-clock "
+    "watchdog of 150 s per history (a scan takes about a second) stands in for the virtual-time deadlock verdict there",
 ]
 EXHAUSTIVE = {"quick": False, "thorough": False}
 EXHAUSTIVE_NOTE = ""
@@ -53,8 +69,8 @@ MAX_REQ = {"quick": 20_000, "thorough": 60_000}
 
 def shards(tier: str, seed: int) -> list[dict[str, Any]]:
     if tier == "quick":
-        return [{"n": 64, "part": i} for i in range(16)]
-    return [{"n": 200, "part": i} for i in range(32)]
+        return [{"n": 64, "part": i, "db": 6} for i in range(16)]
+    return [{"n": 200, "part": i, "db": 24} for i in range(32)]
 
 
 def required_reach(tier: str) -> dict[str, int]:
@@ -62,7 +78,15 @@ def required_reach(tier: str) -> dict[str, int]:
          "skip.used": 20, "skip.cuts-path": 3, "skip.on-real-edge": 10, "opt.thorough": 20, "opt.reset": 20, "opt.full-run": 10,
          "opt.with-hooks": 10, "guarded.probed": 10, "outcome.exact": 300, "outcome.exact.nonconformant": 3,
          "outcome.abort-allowed": 5, "stacks.replayed": 500, "graph.conformant": 100, "graph.nonconformant": 30,
-         "default-session.reported": 50}
+         "default-session.reported": 50,
+         # result-tagged 'identified but could not be activated' list against the ECU-side refusals
+         "identified.log-checked": 300, "identified.exists-elsewhere-not-entered": 100, "identified-not-activated.listed": 20,
+         # DB-backed scans (real DBHandler, session_transition rows) and two-scan histories in one database file
+         "db.histories": 60, "db.scans": 90, "db.scans-judged": 70, "db.rows-checked": 300, "db.rows-nested": 80,
+         "db.exists-elsewhere-not-entered": 40, "db.identified-only-rows": 5, "db.full-run": 10,
+         "db.second-scans": 30, "db.second-scan.nested-rows-stored": 20, "db.second-scan.stored-session-now-out-of-reach": 15,
+         "db.second-scan.smaller-depth": 10, "db.second-scan.skip": 10, "db.second-scan.skip-on-stored-path": 8,
+         "db.second-scan.graph-variant": 3}
     return r
 
 
@@ -286,7 +310,8 @@ def parse_result_records(records: list[tuple[str, str]]) -> tuple[dict[int, list
     return pos, neg
 
 
-async def scan(case: dict[str, Any], budget: int) -> dict[str, Any]:
+async def scan(case: dict[str, Any], budget: int, db: Any = None) -> dict[str, Any]:
+    """db = path of the sqlite file the scan logs into (real event loop only); None = no database (virtual time)"""
     from gallia.commands.scan.uds.sessions import SessionsScanner
     from vf import ecu_models as em
 
@@ -296,8 +321,10 @@ async def scan(case: dict[str, Any], budget: int) -> dict[str, Any]:
     cap = em.fresh_capture()
     opts: dict[str, Any] = {"depth": case["depth"], "skip": list(case["skip_expr"]), "thorough": case["thorough"],
                             "reset": case["reset"], "with_hooks": case["with_hooks"], "sleep": case["sleep"]}
+    if db is not None:
+        opts.update({"db": db, "timeout": DB_TIMEOUT})
     sc = em.make_scanner(SessionsScanner, **opts)
-    out = await em.run_scanner(sc, tr, case["full"])
+    out = await em.run_scanner(sc, tr, case["full"], db=db is not None)
     out.update({"result": list(sc.result), "log": tr.log, "records": list(cap.results), "problems": list(cap.problems),
                 "skip_cfg": list(sc.config.skip)})
     return out
@@ -318,9 +345,34 @@ async def replay_path(case: dict[str, Any], path: list[int]) -> tuple[bool, int]
     return ok, srv.state.session
 
 
-def check_case(ctx: Any, case: dict[str, Any]) -> None:
-    from vf import ecu_models as em
+CASE_KEYS = ("edges", "guarded", "depth", "skip", "skip_expr", "thorough", "reset", "ecu_reset", "with_hooks", "sleep", "full")
 
+
+def walk_ok(adj: dict[int, set[int]], path: list[Any]) -> bool:
+    """`path` (first element: the default session) is a sequence of session changes the graph accepts one after the other"""
+    if not path or path[0] != 1 or not all(isinstance(x, int) and not isinstance(x, bool) for x in path):
+        return False
+    cur = 1
+    for nx in path:
+        if nx not in adj.get(cur, ()):
+            return False
+        cur = nx
+    return True
+
+
+def refusals(log: list[Any]) -> tuple[dict[int, set[tuple[int, int]]], dict[int, set[tuple[int, int]]]]:
+    """ECU-side: session -> {(ECU session at arrival, NRC)} of refused DiagnosticSessionControl requests, split into
+    (refused with another NRC: the sub-function is offered there, refused with 0x12 / 0x7E: not offered there)"""
+    offered: dict[int, set[tuple[int, int]]] = {}
+    absent: dict[int, set[tuple[int, int]]] = {}
+    for before, q, r, _ in log:
+        if len(q) == 2 and q[0] == 0x10 and r is not None and len(r) == 3 and r[0] == 0x7F and r[1] == 0x10:
+            (absent if r[2] in (0x12, 0x7E) else offered).setdefault(q[1] & 0x7F, set()).add((before, r[2]))
+    return offered, absent
+
+
+def prepare(ctx: Any, case: dict[str, Any], db: bool = False) -> dict[str, Any]:
+    """reference values for one scan; registers the case and the generator-side reach counters"""
     depth = case["depth"]
     skip = set(case["skip"])
     adj = real_adj(case)
@@ -344,7 +396,7 @@ def check_case(ctx: Any, case: dict[str, Any]) -> None:
     cuts = set(level_reach(adj, set(), depth)) != set(want)
     nontrivial = feat_far or feat_cycle or feat_long or feat_unreach or cuts or bool(case["guarded"])
     ident = (sorted(case["edges"].items()), case["guarded"], depth, case["skip"], case["thorough"], case["reset"], case["ecu_reset"],
-             case["with_hooks"], case["sleep"], case["full"])
+             case["with_hooks"], case["sleep"], case["full"]) + (("db",) if db else ())
     ctx.case(ident, nontrivial=nontrivial)
     ctx.reach("graph.conformant" if conformant else "graph.nonconformant")
     for flag, name in ((case["thorough"], "opt.thorough"), (case["reset"], "opt.reset"), (case["full"], "opt.full-run"),
@@ -354,14 +406,32 @@ def check_case(ctx: Any, case: dict[str, Any]) -> None:
     if any(b in skip for vs in adj.values() for b in vs):
         ctx.reach("skip.on-real-edge")
 
-    w: dict[str, Any] = {k: case[k] for k in ("edges", "guarded", "depth", "skip", "skip_expr", "thorough", "reset", "ecu_reset", "with_hooks", "sleep", "full")}
+    w: dict[str, Any] = {k: case[k] for k in CASE_KEYS}
     w["expected"] = sorted(want)
-    mode = "thorough" if case["thorough"] else "default"
+    return {"depth": depth, "skip": skip, "adj": adj, "want": want, "unbounded": unbounded, "all_sessions": all_sessions,
+            "eff_reset": eff_reset, "stuck": stuck, "conformant": conformant, "abort_allowed": abort_allowed, "budget": budget,
+            "feat_cycle": feat_cycle, "feat_long": feat_long, "feat_unreach": feat_unreach,
+            "mode": "thorough" if case["thorough"] else "default", "w": w}
+
+
+def check_case(ctx: Any, case: dict[str, Any]) -> None:
+    o = prepare(ctx, case)
     try:
-        out = vtime.run(scan(case, budget))
+        out = vtime.run(scan(case, o["budget"]))
     except vtime.Deadlock:
-        ctx.violation(f"sessions/no-termination/blocks-forever/{mode}", "the scan can never complete (nothing scheduled, nothing readable)", w)
+        ctx.violation(f"sessions/no-termination/blocks-forever/{o['mode']}", "the scan can never complete (nothing scheduled, nothing readable)", o["w"])
         return
+    judge(ctx, case, o, out)
+
+
+def judge(ctx: Any, case: dict[str, Any], o: dict[str, Any], out: dict[str, Any], rows: list[tuple[int, Any]] | None = None) -> bool:
+    """compare one finished scan with the reference; `rows` = the (destination, steps) rows this scan wrote into
+    session_transition (DB-backed scans only).  True = the scan ran to its result phase."""
+    from vf import ecu_models as em
+
+    depth, skip, adj, want, unbounded, mode, w = o["depth"], o["skip"], o["adj"], o["want"], o["unbounded"], o["mode"], o["w"]
+    budget, conformant, eff_reset, stuck, abort_allowed = o["budget"], o["conformant"], o["eff_reset"], o["stuck"], o["abort_allowed"]
+    feat_cycle, feat_long, feat_unreach = o["feat_cycle"], o["feat_long"], o["feat_unreach"]
     log = out["log"]
     ctx.trace([(b, q, r) for b, q, r, _ in log])
     w["result"] = out["result"]
@@ -382,20 +452,20 @@ def check_case(ctx: Any, case: dict[str, Any]) -> None:
     # (c) termination
     if isinstance(out["error"], em.BudgetExceeded):
         ctx.violation(f"sessions/no-termination/request-budget-exceeded/{mode}", f"more than {budget} requests for a graph that needs far fewer: the scan does not terminate", w)
-        return
+        return False
     if out["error"] is not None:
         ctx.violation(f"sessions/raises/{type(out['error']).__name__}", f"the scan ends with an exception: {out['error']!r:.200}", w)
-        return
+        return False
     if out["exit"] is not None:
         last_dsc = [(q, r) for _, q, r, _ in log if len(q) == 2 and q[0] == 0x10]
         refused = bool(last_dsc) and last_dsc[-1][1] is not None and last_dsc[-1][1][0] == 0x7F
         if out["exit"] == 1 and abort_allowed and refused:
             ctx.reach("outcome.abort-allowed")
             ctx.reach("outcome.abort-allowed/" + ("default-not-reenterable" if 1 not in adj.get(1, ()) else "no-way-back"))
-            return
+            return False
         why = "conformant-graph" if conformant else ("with-reset" if eff_reset else "no-refused-change")
         ctx.violation(f"sessions/aborts/{why}/exit-{out['exit']}", "the scan gives up although every session it enters can return to the default session (or a reset is in use)", {**w, "stuck": stuck})
-        return
+        return False
 
     # (a) the reported set
     res = out["result"]
@@ -468,9 +538,284 @@ def check_case(ctx: Any, case: dict[str, Any]) -> None:
             if any(x in skip for x in path):
                 ctx.violation("sessions/stack-through-skipped-session", "a reported stack contains a skipped session", {**w, "session": s, "stack": st})
                 break
-    # sessions whose change was answered with another NRC may be listed as identified, never as found (covered by (a))
+
+    # (e) "identified but could not be activated": what sessions.py documents -- a session whose change was answered with an NRC
+    # other than subFunctionNotSupported (0x12) / subFunctionNotSupportedInActiveSession (0x7E) and that was never entered is listed
+    # separately (never as found, see (a)), with the stack from whose last session the ECU refused it.  Reference: the ECU-side log.
+    offered, absent = refusals(log)
+    ident_only = set(offered) - entered
+    exists_elsewhere = {s for s, v in absent.items() if any(n == 0x7E for _, n in v)} - entered - set(offered)
+    if exists_elsewhere:
+        ctx.reach("identified.exists-elsewhere-not-entered")  # the situation in which a 0x7E answer could be mistaken for 'identified'
+    ctx.reach("identified.log-checked")
     if neg:
         ctx.reach("identified-not-activated.listed")
+    for s in sorted(set(neg) - ident_only):
+        if s in entered:
+            kind = "activated-session"
+        elif s in exists_elsewhere:
+            kind = "only-answered-nrc-7e"
+        elif s in absent:
+            kind = "only-answered-nrc-12"
+        else:
+            kind = "never-requested"
+        ctx.violation(f"sessions/identified-list/session-not-offered/{kind}", "a session is logged as 'identified but could not be activated' although the ECU answered its "
+                      "DiagnosticSessionControl requests only with sub-function-not-supported (here / in the active session) or entered it", {**w, "session": s, "stacks": neg[s][:4]})
+    for s in sorted(ident_only - set(neg)):
+        ctx.violation("sessions/identified-list/refused-session-not-listed", "the ECU refused a session change with an NRC other than 0x12/0x7E and never entered the session, "
+                      "yet it is not logged as identified", {**w, "session": s, "refused_from": sorted(offered[s])})
+    for s in sorted(set(neg) & ident_only):
+        for st in neg[s]:
+            if not (walk_ok(adj, st) and any(b == st[-1] for b, _ in offered[s])):
+                ctx.violation("sessions/identified-list/stack-does-not-lead-to-refusal", "the stack logged for an identified session is not a real path to a session from which the ECU "
+                              "refused that change", {**w, "session": s, "stack": st, "refused_from": sorted(offered[s])})
+                break
+
+    # (f) session_transition rows of this scan (DB-backed scans)
+    if rows is not None:
+        ctx.reach("db.scans-judged")
+        if exists_elsewhere:
+            ctx.reach("db.exists-elsewhere-not-entered")
+        w2 = {**w, "rows": rows[:40]}
+        dests: set[int] = set()
+        for dest, steps in rows:
+            ctx.reach("db.rows-checked")
+            wr = {**w2, "row": [dest, steps]}
+            if not isinstance(dest, int) or not isinstance(steps, list):
+                ctx.violation("sessions/db/transition-row-malformed", "a session_transition row does not hold (int destination, JSON list of steps)", wr)
+                continue
+            dests.add(dest)
+            if dest in want:
+                path = steps + [dest]
+                real = walk_ok(adj, path)
+                if real:
+                    ok, final = vtime.run(replay_path(case, path))
+                    real = ok and final == dest
+                if not real:
+                    ctx.violation("sessions/db/transition-row-not-a-path", "the steps stored for a reachable session, replayed on a fresh ECU, are refused or end in another session", wr)
+                elif len(steps) > depth:
+                    ctx.violation("sessions/db/transition-row-longer-than-depth", "the steps stored for a session need more session changes than the depth limit", wr)
+                elif any(x in skip for x in path):
+                    ctx.violation("sessions/db/transition-row-through-skipped-session", "the steps stored for a session contain a skipped session", wr)
+                else:
+                    ctx.reach("db.rows-real-path")
+                    if len(steps) >= 2:
+                        ctx.reach("db.rows-nested")
+            elif dest in ident_only:
+                ctx.reach("db.identified-only-rows")
+                if not (walk_ok(adj, steps) and any(b == steps[-1] for b, _ in offered[dest])):
+                    ctx.violation("sessions/db/identified-row-does-not-lead-to-refusal", "the steps stored for an identified-but-not-activated session are not a real path to a "
+                                  "session from which the ECU refused that change", {**wr, "refused_from": sorted(offered[dest])})
+            else:
+                if dest in skip:
+                    kind = "skipped-session"
+                elif dest in exists_elsewhere:
+                    kind = "exists-elsewhere/only-answered-nrc-7e"
+                elif dest in entered:
+                    kind = "entered-beyond-oracle"
+                elif dest in absent:
+                    kind = "only-answered-nrc-12"
+                else:
+                    kind = "never-requested"
+                ctx.violation(f"sessions/db/transition-row-for-unreachable-session/{kind}", "session_transition holds a row for a session that can neither be entered within the depth "
+                              "limit nor was refused with an NRC other than 0x12/0x7E", {**wr, "distance": unbounded.get(dest)})
+        for s in sorted(set(want) - dests):
+            ctx.violation("sessions/db/missing-transition-row", "a reachable session has no session_transition row", {**w2, "session": s, "distance": want[s]})
+        for s in sorted(ident_only - dests):
+            ctx.reach("db.identified-only-without-row")  # not required by the statement; counted only
+    return True
+
+
+# ---- DB-backed scans and two-scan histories (real event loop) -------------------------------------------------------
+DB_TIMEOUT = 0.2  # UDS timeout of DB-backed scans (real seconds; the ECU model answers every request of a session scan at once)
+DB_WALL = 150.0  # real-time watchdog for one history; a DB-backed scan takes about a second
+DB_MAX_REQ = {"quick": 2600, "thorough": 6000}
+_db_seq = 0
+
+
+def db_cost(case: dict[str, Any]) -> int:
+    adj = real_adj(case)
+    skip = set(case["skip"])
+    if case["thorough"]:
+        stacks = count_stacks(adj, skip, case["depth"], 10_000)
+    else:
+        stacks = 1 + (len(level_reach(adj, skip, case["depth"] - 1)) if case["depth"] > 1 else 0)
+    return stacks * 127
+
+
+def fit_db(case: dict[str, Any], tier: str) -> dict[str, Any]:
+    """DB-backed scans run in real time: no reset (wait_for_ecu sleeps 0.5 s per probe), no sleep option, bounded size"""
+    case["reset"] = None
+    case["sleep"] = 0
+    while db_cost(case) > DB_MAX_REQ[tier]:
+        if case["thorough"]:
+            case["thorough"] = False
+        elif case["depth"] > 1:
+            case["depth"] -= 1
+        else:
+            break
+    return case
+
+
+def gen_history(rng: Any, tier: str) -> dict[str, Any]:
+    """one or two scans of the same target into one database file; the second scan is a variation of the first (smaller depth,
+    a skip list that cuts stored paths, a changed graph, thorough flipped) so that rows stored by the first scan describe
+    sessions the second scan must NOT report / request"""
+    from vf import ecu_models as em
+
+    c1 = gen_case(rng, tier)
+    if rng.random() < 0.6 and c1["depth"] < 2:
+        c1["depth"] = rng.randint(2, 4)
+    if not c1["guarded"] and rng.random() < 0.4:
+        # a session that is offered from a session the scan enters but only ever refused (identified, never activated): its row
+        # in session_transition is the one kind of row beside the reachable sessions that sessions.py documents
+        near = sorted(set(level_reach(real_adj(c1), set(c1["skip"]), max(1, c1["depth"] - 1))) | {1})
+        a = rng.choice(near)
+        b = rng.choice([x for x in range(2, 0x80) if str(x) not in c1["edges"] and x not in c1["skip"]])
+        c1["edges"][str(a)] = sorted(set(c1["edges"][str(a)]) | {b})
+        c1["edges"][str(b)] = [1]
+        c1["guarded"] = [[a, b, rng.choice(GUARD_NRCS)]]
+    fit_db(c1, tier)
+    scans = [c1]
+    kinds: list[str] = []
+    if rng.random() < 0.6:
+        c2 = {k: (dict(v) if isinstance(v, dict) else list(v) if isinstance(v, list) else v) for k, v in c1.items()}
+        adj1 = real_adj(c1)
+        d1 = level_reach(adj1, set(c1["skip"]), c1["depth"])
+        if rng.random() < 0.6 and c1["depth"] > 1:
+            c2["depth"] = rng.randint(1, c1["depth"] - 1)
+            kinds.append("smaller-depth")
+        if rng.random() < 0.5:
+            inner = [s for s, d in d1.items() if s != 1 and d < c1["depth"] and any(x != s and x != 1 for x in adj1.get(s, ()))]
+            others = [s for s in adj1 if s != 1]
+            pick = set(rng.sample(inner, min(len(inner), rng.randint(1, 2)))) if inner else set()
+            if others and rng.random() < 0.4:
+                pick.add(rng.choice(others))
+            if pick:
+                c2["skip"] = sorted(pick | (set(c1["skip"]) if rng.random() < 0.5 else set()))
+                c2["skip_expr"] = em.render_ranges(rng, c2["skip"])
+                kinds.append("skip")
+        if rng.random() < 0.4:
+            edges = {int(k): set(v) for k, v in c1["edges"].items()}
+            out1 = [b for b in edges.get(1, ()) if b != 1]
+            for b in rng.sample(out1, min(len(out1), rng.randint(1, 2))):
+                edges[1].discard(b)  # a session that used to be offered from the default session is now nested or gone
+                if rng.random() < 0.5:
+                    cand = [a for a in edges if a not in (1, b)]
+                    if cand:
+                        edges[rng.choice(cand)].add(b)
+            for _ in range(rng.randint(0, 2)):
+                a, b = rng.choice(sorted(edges)), rng.choice(sorted(edges))
+                if a != b and b != 1:
+                    edges[a].add(b)
+            c2["edges"] = {str(k): sorted(v) for k, v in sorted(edges.items())}
+            c2["guarded"] = [g for g in c1["guarded"] if g[1] in edges.get(g[0], ())]
+            kinds.append("graph-variant")
+        if rng.random() < 0.3:
+            c2["thorough"] = not c1["thorough"]
+        c2["with_hooks"] = rng.random() < 0.3
+        c2["full"] = rng.random() < 0.25
+        if not kinds:
+            kinds.append("repeat")
+        fit_db(c2, tier)
+        scans.append(c2)
+    return {"scans": scans, "kinds": kinds}
+
+
+def pinned_history(part: int, i: int) -> dict[str, Any]:
+    """chain 1->2->..->6 with a cycle and an island scanned with depth 3, then again with depth 1 / with session 2 skipped"""
+    c1 = pinned_case(3, 0)
+    c2 = pinned_case(3, 0)
+    c1["full"] = part % 2 == 1
+    if (part + i) % 2 == 0:
+        c2["depth"] = 1
+        kinds = ["smaller-depth"]
+    else:
+        c2["skip"], c2["skip_expr"] = [2], ["0x02"]
+        kinds = ["skip"]
+    return {"scans": [c1, c2], "kinds": kinds}
+
+
+async def run_history(path: Any, cases: list[dict[str, Any]], budgets: list[int]) -> list[dict[str, Any]]:
+    outs = []
+    for case, budget in zip(cases, budgets):
+        outs.append(await scan(case, budget, db=path))
+    return outs
+
+
+def uses_stored_transitions(log: list[Any], stored: dict[int, list[list[int]]], skip: set[int]) -> dict[str, Any] | None:
+    """ECU-side trace of ECU.set_session() falling back to stored steps: a refused '10 s' directly followed by the steps an
+    earlier scan stored for s and by '10 s' again.  The scanner itself never continues like that: after a refused probe that
+    is not the last id of its loop the next request is the probe of a higher session id, never '10 01'."""
+    dsc = [(i, q[1] & 0x7F, r) for i, (_, q, r, _) in enumerate(log) if len(q) == 2 and q[0] == 0x10]
+    for i, s, r in dsc:
+        if r is None or r[0] != 0x7F or s not in stored:
+            continue
+        if not any(x not in skip for x in range(s + 1, 0x80)):
+            continue  # last probe of the loop: the next stack is recovered from '10 01' on
+        for steps in stored[s]:
+            n = len(steps)
+            if not n:
+                continue
+            follow = log[i + 1 : i + 2 + n]
+            if len(follow) == n + 1 and all(len(e[1]) == 2 and e[1][0] == 0x10 for e in follow) and [e[1][1] for e in follow] == steps + [s]:
+                return {"session": s, "stored_steps": steps, "at_request": i, "log": [f"{e[1].hex()} -> {e[2].hex() if e[2] is not None else '-'}" for e in log[i : i + 2 + n]]}
+    return None
+
+
+def check_history(ctx: Any, hist: dict[str, Any]) -> None:
+    from vf import ecu_models as em
+
+    global _db_seq
+    cases = hist["scans"]
+    os_ = [prepare(ctx, c, db=True) for c in cases]
+    hw = [{k: c[k] for k in CASE_KEYS} for c in cases]
+    for k, o in enumerate(os_):
+        o["w"]["history"] = hw
+        o["w"]["scan_index"] = k
+    _db_seq += 1
+    path = ctx.mkscratch() / f"c09-{_db_seq}.sqlite"
+    em.remove_db(path)
+    try:
+        try:
+            outs = em.run_real(run_history(path, cases, [o["budget"] for o in os_]), DB_WALL)
+        except TimeoutError:
+            ctx.violation("sessions/db/no-termination/wall-clock", f"a DB-backed history of {len(cases)} scan(s) (about a second each) did not finish within {DB_WALL:.0f} s", os_[0]["w"])
+            return
+        all_rows = em.read_session_transitions(path)
+    finally:
+        em.remove_db(path)
+    ctx.reach("db.histories")
+    stored: dict[int, list[list[int]]] = {}
+    for k, (case, o, out) in enumerate(zip(cases, os_, outs)):
+        ctx.reach("db.scans")
+        if case["full"]:
+            ctx.reach("db.full-run")
+        rows = [(d, st) for run, d, st in all_rows if run == out["run"]] if out["run"] is not None else []
+        foreign = [r for r in all_rows if r[0] not in [x["run"] for x in outs]]
+        if foreign:
+            ctx.violation("sessions/db/transition-row-for-unknown-run", "session_transition holds rows whose run is none of the scan runs of this history", {**o["w"], "rows": foreign[:10]})
+        if k > 0:
+            ctx.reach("db.second-scans")
+            for kind in hist.get("kinds", []):
+                ctx.reach(f"db.second-scan.{kind}")
+            nested = {d for d, sts in stored.items() if any(isinstance(st, list) and len(st) >= 2 for st in sts)}
+            if nested:
+                ctx.reach("db.second-scan.nested-rows-stored")
+                if nested - set(o["want"]):
+                    ctx.reach("db.second-scan.stored-session-now-out-of-reach")
+            if any(isinstance(st, list) and any(x in o["skip"] for x in st) for sts in stored.values() for st in sts):
+                ctx.reach("db.second-scan.skip-on-stored-path")
+            hit = uses_stored_transitions(out["log"], {d: [st for st in sts if isinstance(st, list)] for d, sts in stored.items()}, o["skip"])
+            if hit is not None:
+                ctx.violation("sessions/second-scan/uses-stored-transitions", "a refused session change was retried through the steps an earlier scan stored in session_transition "
+                              "although the session scan asks for use_db=False: the scan explores the stored graph, not the ECU", {**o["w"], **hit})
+        finished = judge(ctx, case, o, out, rows=rows)
+        if not finished and rows:
+            ctx.reach("db.rows-without-result-phase")
+        for d, st in rows:
+            if isinstance(d, int):
+                stored.setdefault(d, []).append(st)
 
 
 def run(ctx: Any, params: dict[str, Any]) -> None:
@@ -479,6 +824,14 @@ def run(ctx: Any, params: dict[str, Any]) -> None:
 
     em.capture_logging()
     rng = ctx.rng
+    # DB-backed scans first (real time, few): a real DBHandler on a sqlite file in the scratch directory, one or two scans per file
+    for i in range(params.get("db", 0)):
+        if ctx.out_of_time():
+            break
+        hist = pinned_history(params["part"], i) if i < 2 else gen_history(rng, ctx.tier)
+        check_history(ctx, hist)
+        if i % 4 == 0:
+            ctx.sample({"db_history": [{k: c[k] for k in ("edges", "guarded", "depth", "skip_expr", "thorough", "full")} for c in hist["scans"]], "kinds": hist["kinds"]})
     for i in range(params["n"]):
         if ctx.out_of_time():
             break
@@ -511,6 +864,9 @@ def replay(ctx: Any, witness: dict[str, Any]) -> None:
     from vf import ecu_models as em
 
     em.capture_logging()
-    case = {k: witness[k] for k in ("edges", "guarded", "depth", "skip", "skip_expr", "thorough", "reset", "ecu_reset", "with_hooks", "sleep", "full")}
+    if witness.get("history"):
+        check_history(ctx, {"scans": [{**{k: c[k] for k in CASE_KEYS}, "feats": []} for c in witness["history"]], "kinds": []})
+        return
+    case = {k: witness[k] for k in CASE_KEYS}
     case["feats"] = []
     check_case(ctx, case)
